@@ -1,7 +1,7 @@
 (** Properties/C04.v — "Serialised objects parse back to the same value".  The round trip is a corollary of
     conformance of the writer: what [ser] writes is a spelling in the sense of C03 ([spells] + [renders]). *)
 From PdfV Require Import Base.Prelude Base.DecProofs Gen.Generated Lex.Lexer Lex.StrLexer Lex.LexProofs Lex.StrProofs
-  Syn.Prim Syn.Utf8 Syn.Parser Syn.Serialize Syn.Spells Syn.ParserProofs Syn.NameProofs Syn.RenderProofs Syn.SerProofs Syn.IndirectSerProofs.
+  Syn.Prim Syn.Utf8 Syn.Parser Syn.Serialize Syn.Spells Syn.ParserProofs Syn.NameProofs Syn.RenderProofs Syn.SerProofs Syn.StreamProofs Syn.IndirectSerProofs Syn.StreamSerProofs.
 
 (** the writer is conformant: for every storable value the bytes it writes are the items [items_of v] (which denote v),
     separated and delimited as the standard requires, whatever non-regular byte follows *)
@@ -52,6 +52,22 @@ Theorem C04_indirect_body : forall v id gen,
       Ok (id, gen, v, mkLx (p + lenN (obj_text id gen body rest) - lenN ([10] ++ rest)) ([10] ++ rest)).
 Proof. exact ser_indirect_roundtrip. Qed.
 Print Assumptions C04_indirect_body.
+
+(** streams: a stream with pending data (any bytes) written as an indirect object — dictionary, `stream` LF, the data, LF `endstream`,
+    the object terminator — is read back as the stream with the same dictionary whose data window is exactly the data written;
+    /Length may be the direct integer or a reference the resolver resolves to it *)
+Theorem C04_stream : forall d data id gen,
+  NoDup (keys d) -> entries_storable d -> 1 + ddepth d <= MAX_DEPTH ->
+  id < 18446744073709551616 -> gen < 18446744073709551616 ->
+  forall R, length_entry R d (lenN data) ->
+  forall allow rest p,
+  exists body st s_end,
+    ser (PStreamData d data) = Ok body /\
+    parse_indirect_object R allow F_ANY (mkLx p (obj_text id gen body rest)) = Ok (id, gen, PStream d id gen st (lenN data), s_end) /\
+    p <= st /\ take (lenN data) (drop (st - p) (obj_text id gen body rest)) = data /\
+    lrest s_end = [10] ++ rest.
+Proof. exact ser_stream_indirect. Qed.
+Print Assumptions C04_stream.
 
 (** serialising never panics — for every value, storable or not *)
 Theorem C04_ser_no_panic : forall v s, ser v <> Panic s.
